@@ -98,6 +98,8 @@ type Client struct {
 	Cached bool // marks requests as served from a cache view (informational)
 	// Filter, when set, hides objects for which it returns false (cache label selector).
 	Filter func(c map[string]any) bool
+	// ListHide hides the given keys from List answers only (a lagging informer cache).
+	ListHide map[Key]bool
 }
 
 var _ client.Client = (*Client)(nil)
@@ -255,7 +257,7 @@ func (c *Client) List(_ context.Context, list client.ObjectList, opts ...client.
 			continue
 		}
 		o := c.S.Objs[k]
-		if !c.visible(o) {
+		if !c.visible(o) || c.ListHide[k] {
 			continue
 		}
 		if lo.LabelSelector != nil && !lo.LabelSelector.Matches(labels.Set(Labels(o.Content))) {
